@@ -414,11 +414,16 @@ class SqlImpl(TableImpl):
             name_in_subquery = dict()
 
             # resolve potential column name collisions in the subquery
+            used_names = {sqa_expr[uid].name for uid in needed_cols.keys() if uid in sqa_expr}
             for uid in needed_cols.keys():
                 if uid in sqa_expr:
                     name = sqa_expr[uid].name
                     if c := cnt.get(name):
+                        # (the new name must not be the name of another column)
+                        while f"{name}_{c}" in used_names:
+                            c += 1
                         name_in_subquery[uid] = f"{name}_{c}"
+                        used_names.add(name_in_subquery[uid])
                         cnt[name] = c + 1
                     else:
                         name_in_subquery[uid] = name
